@@ -83,25 +83,47 @@ func verifSentinel(err error) string {
 	return ""
 }
 
-// verifSessionOps: what a body script does to its sqlx session.
-func verifSessionOps(s Session) verifsql.Ops {
+// verifSessionOps: what a body script does to its sqlx session - with the plain methods, or (bound)
+// with the XxxCtx methods on the ctx the body was given.
+func verifSessionOps(ctx context.Context, bound bool, s Session) verifsql.Ops {
+	if !bound {
+		return verifsql.Ops{
+			Exec: func(q string) error {
+				_, err := s.Exec(q)
+				return err
+			},
+			PrepExec: func(q string) error {
+				st, err := s.Prepare(q)
+				if err != nil {
+					return err
+				}
+				defer st.Close()
+				_, err = st.Exec()
+				return err
+			},
+			Query: func(q string) error {
+				var x int64
+				return s.QueryRow(&x, q)
+			},
+		}
+	}
 	return verifsql.Ops{
 		Exec: func(q string) error {
-			_, err := s.Exec(q)
+			_, err := s.ExecCtx(ctx, q)
 			return err
 		},
 		PrepExec: func(q string) error {
-			st, err := s.Prepare(q)
+			st, err := s.PrepareCtx(ctx, q)
 			if err != nil {
-				return fmt.Errorf("verif: prepare failed: %v", err)
+				return err
 			}
 			defer st.Close()
-			_, err = st.Exec()
+			_, err = st.ExecCtx(ctx)
 			return err
 		},
 		Query: func(q string) error {
 			var x int64
-			return s.QueryRow(&x, q)
+			return s.QueryRowCtx(ctx, &x, q)
 		},
 	}
 }
@@ -126,14 +148,20 @@ func verifTxCase(c verifCase) any {
 	}
 
 	var obs verifsql.BodyObs
-	body := func(s Session) error { return verifsql.RunBody(c.TxCase, rec, verifSessionOps(s), &obs) }
+	ctx, after, done := verifsql.MakeCtx(c.TxCase)
+	defer done()
+	body := func(bctx context.Context, s Session) error {
+		ops := verifSessionOps(bctx, c.Bound, s)
+		ops.After = after
+		return verifsql.RunBody(c.TxCase, rec, ops, &obs)
+	}
 
 	var err error
 	escaped, pval := verifdrv.Catch(func() {
 		if c.API == "transactctx" {
-			err = conn.TransactCtx(context.Background(), func(_ context.Context, s Session) error { return body(s) })
+			err = conn.TransactCtx(ctx, body)
 		} else {
-			err = conn.Transact(body)
+			err = conn.Transact(func(s Session) error { return body(context.Background(), s) })
 		}
 	})
 	out := map[string]any{"err": verifErr(err), "calls": rec.Calls, "escaped": nil, "runs": obs.Runs, "seen": obs.Seen}
